@@ -2,7 +2,7 @@
 from vf import core
 from . import remoteclient as rc
 
-FORMULAS = {'Gated', 'RegisterSigned', 'AcceptedOnlyIfValid', 'FlushedWithHandshake', 'AnsweredOnlyIfWritten', 'NoPanic'}
+FORMULAS = {'Gated', 'RegisterSigned', 'RegisterFresh', 'AcceptedOnlyIfValid', 'FlushedWithHandshake', 'AnsweredOnlyIfWritten', 'NoPanic'}
 
 
 def main(argv):
